@@ -2580,6 +2580,14 @@ class Processor:
                                     str(yaml_path),
                                     except_segment
                                 ) from wrap_ex
+                        if newidx < 0:
+                            raise YAMLPathException(
+                                ("Cannot add an element before the start of"
+                                 " a list (index {} is out of range)")
+                                .format(newidx),
+                                str(yaml_path),
+                                except_segment
+                            )
                         for _ in range(len(data) - 1, newidx):
                             next_node = Nodes.build_next_node(
                                 yaml_path, depth + 1, value
